@@ -373,6 +373,10 @@ func (b *book) dflt(t *gty) string {
 		return "[]"
 	case "ptr":
 		return b.dflt(t.elem)
+	case "named":
+		if z, ok := bookExtZero[t.name]; ok {
+			return z
+		}
 	}
 	return "default"
 }
@@ -1775,6 +1779,7 @@ type bookFragment struct{ after, suffix string }
 
 var bookFragments = map[bookFnKey]bookFragment{
 	{"observerManager", "RemoveObserver"}: {"m.totalCount--", "aggregates"},
+	{"observerManager", "AddObserver"}:    {"m.totalCount++", "aggregates"},
 }
 
 func (b *book) translate(key bookFnKey) *bookFnInfo {
@@ -2019,7 +2024,7 @@ var bookGroups = []bookGroup{
 		{"", "newBitPool"}, {"", "newLock"}, {"lock", "Lock"}, {"lock", "Unlock"}, {"lock", "LockSafe"}, {"lock", "UnlockSafe"},
 		{"lock", "IsLocked"}, {"lock", "Reset"}}, "import Ark.Generated.Words"},
 	{"BookObservers", "events.go: the per-event aggregates (union masks, wildcard flags) that RemoveObserver recomputes — the tail of the function after the observer list was edited", []bookFnKey{
-		{"observerManager", "RemoveObserver"}}, "import Ark.Generated.Words"},
+		{"observerManager", "RemoveObserver"}, {"observerManager", "AddObserver"}}, "import Ark.Generated.Words"},
 }
 
 func genBook(p *pkgFiles, files map[string]string) {
